@@ -5,6 +5,7 @@
 mod batch;
 mod lexparse;
 mod pipeline;
+mod resolve;
 mod topo_replay;
 
 use std::path::PathBuf;
@@ -42,6 +43,7 @@ fn main() {
             let p = parser::parse_source_file(&toks, &text);
             println!("{:?}", p.errors().len());
         }
+        "resolve" => resolve::main(&args[2..]),
         "topo-replay" => topo_replay::main(&args[2..]),
         other => {
             eprintln!("unknown subcommand {}", other);
